@@ -5,8 +5,12 @@ ROOT = os.path.dirname(os.path.dirname(os.path.abspath(__file__)))
 
 # id -> (implemented, technique, level text, level note, design_ref)
 P = {
- "C01": (False, "stateful PBT (proptest op histories) vs reference page-table model + independent hardware-style walker, 3 mapper backends incl. software MMU", "", "", "3/C01"),
- "C02": (False, "state-relative PBT with allocator fault schedules; documented-outcome table; before/after invariance; cross-backend differential", "", "", "3/C02"),
+ "C01": (True, "stateful PBT (proptest op histories) vs reference page-table model + independent hardware-style walker, 3 mapper backends incl. software MMU",
+         "Exploration by stateful property-based testing: 16k generated call histories (up to 32 calls; thorough: 800k histories up to 96 calls) each run on all three mapper implementations over simulated physical memory; after every call the reference model, an independent hardware-style walk of the raw table bytes and the crate's translate/translate_addr/translate_page must agree on a probe set, and every table frame must equal the model's rendering byte for byte.",
+         'Trusts the reference model/hardware walker (written from the architecture manuals), the software MMU and the trap decoder. Recursive indices limited to slots a Linux process can host; one open known finding (huge leaf with PAT bit) is excluded by construction.', "3/C01"),
+ "C02": (True, "state-relative PBT with allocator fault schedules; documented-outcome table; before/after invariance; cross-backend differential",
+         'Exploration with fault enumeration inside it: 16k histories weighted towards error states, every allocating call carrying an allocator failure schedule (none/1st/2nd/3rd/all); oracle = documented outcome per model state, byte-exact before/after invariance of all simulated memory on Err (modulo the allowed parent-flag widening), allocator request accounting and identical results across the three implementations.',
+         "Same trusted base as C01. 'Any Err, never Ok' is required only where the documentation defines no outcome (entry holds a lower-level table).", "3/C02"),
  "C03": (True, "proptest: edge-biased inputs + generated programs of safe operations vs independent validity predicate and metamorphic truncation laws; both build profiles",
          "Exploration: ~1.3M generated constructor inputs/program steps per quick run (both overflow-checking and release builds) judged by a bit-level predicate written from the architecture definition, not from the crate. Shows the property on everything generated; cannot show absence.",
          "Trusts proptest's generators/shrinker and the harness oracle (valid_v/valid_p, 10 lines). Inputs: all u64 (edge-biased), programs up to 24 steps over 46 operation kinds.", "3/C03"),
@@ -25,8 +29,12 @@ P = {
  "C08": (True, "proptest setter programs vs raw-bytes model (transmute), table access-path differential",
          'Exploration plus an exhaustive 512-slot sweep: 60k setter programs and 15k table programs per quick run judged against a raw-u64 / raw-4096-byte model obtained by transmute, through all write paths x read paths.',
          'Trusts transmute of the repr(transparent)/repr(C) types as the observation of the hardware layout.', "3/C08"),
- "C09": (False, "stateful PBT over junk-filled simulated memory: byte diff vs predicted writes, access logs, allocation accounting", "", "", "3/C09"),
- "C10": (False, "stateful PBT: MUST/MAY freed-set model, inspection at dealloc time, idempotence", "", "", "3/C10"),
+ "C09": (True, "stateful PBT over junk-filled simulated memory: byte diff vs predicted writes, access logs, allocation accounting",
+         "Exploration: 16k histories over junk-pre-filled simulated memory with recycled and huge-aligned table frames; after every call every materialised physical frame must equal the model's expectation (so any stray write anywhere is seen), and the per-backend access logs (frame_to_pointer arguments, offset-window faults, software-MMU fault log) must stay inside the hierarchy's tables.",
+         "Same trusted base as C01; 'completely zeroed before use' is decided after the call on junk-pre-filled frames and, on the recursive mapper, through the fault log.", "3/C09"),
+ "C10": (True, "stateful PBT: MUST/MAY freed-set model, inspection at dealloc time, idempotence",
+         'Exploration: 16k histories engineered to leave empty tables, followed by clean_up / clean_up_addr_range over single-page, empty, table-aligned, unaligned, gap-spanning and to-the-last-page ranges, each immediately repeated; the deallocator callback inspects memory at the moment of each release (empty, unlinked), the model forbids freeing anything that holds an entry or lies outside the range and forbids leaving an empty in-range table behind.',
+         'Same trusted base as C01.', "3/C10"),
  "C11": (True, "PBT with trapped privileged instructions (user-mode trap-and-emulate): operand decode vs manuals, interval cover",
          'Exploration with the real privileged instructions executed and trapped: 40k flush / 40k flush_all / 40k flush_pcid cases and 12k broadcast-builder cases (~1M trapped invlpgb requests) per quick run; every operand is decoded per the Intel/AMD manuals and compared with what was asked; interval-cover oracle for range flushes. The token-names-the-changed-page half is checked over mapper histories in the C01 run.',
          "Trusts the harness's instruction decoder and the reading of the invlpgb operand format (ECX[15:0] = additional pages). invlpgb does not exist on this CPU: it traps as #UD and is decoded from the register file.", "3/C11"),
@@ -54,7 +62,9 @@ P = {
  "C19": (True, "exhaustive enumeration of constants vs independent manual-derived table; exhaustive/generated codec round trips",
          'Complete enumeration on every run of all named constants (14 bitflags types via iter_names, MSR numbers, vectors, sizes, PAT, resets) against an independently typed manual table, all u16/u8 codec inputs exhaustively, and 100k generated DR7 / selector-error-code cases.',
          'The manual table itself is the trusted base (typed from the SDM/APM); a crate constant without a table row is reported as a label in the evidence.', "3/C19"),
- "C20": (False, "PBT on software MMU: constructor truth table; index-repetition formula for all 512 indices via hook", "", "", "3/C20"),
+ "C20": (True, "PBT on software MMU: constructor truth table; index-repetition formula for all 512 indices via hook",
+         'Exploration: 150k (recursive index, page) pairs over all 512 indices through hook H3 against the index-repetition formula; 20k constructor cases (recursive and near-recursive table addresses x CR3 contents x slot contents) against the documented truth table with the used index observed from software-MMU fault addresses; 8k histories on the running recursive mapper checking every touched recursive page.',
+         'Running recursive mapper limited to indices [1,31] and [65,160]; indices >= 256 only through the pure-function hook.', "3/C20"),
 }
 
 def main():
